@@ -15,6 +15,8 @@ import (
 
 func TestMain(m *testing.M) { vlib.Main(m) }
 
+var caseCounter int
+
 type regSpec struct {
 	Value   int
 	Title   string
@@ -35,6 +37,9 @@ type scenario struct {
 	DebugLate bool
 	// DebugOffAgain: debug mode is switched on and off again before the call
 	DebugOffAgain bool
+	// Bare: the Println entry points are called without any argument (a blank line at the Always severity) and the
+	// other Print/Println ones with an empty message: gated like every other call
+	Bare bool
 }
 
 func levelKind(l slog.Level, m *vlib.LevelModel) string {
@@ -103,6 +108,15 @@ func run(t vlib.TB, test string, sc scenario) {
 			other.SetLevel(slog.DebugLevel) // documented side effect: switches process-wide debug mode on
 			other.SetLevel(slog.ErrorLevel)
 			debug = true
+		case "side-effect-child":
+			// "an earlier SetLevel(Debug) on ANY logger": here on a child / grandchild of an unrelated root
+			kid := slog.New("other").New("otherkid")
+			if caseCounter%2 == 0 {
+				kid = kid.New("othergrandkid")
+			}
+			kid.SetLevel(slog.DebugLevel)
+			kid.SetLevel(slog.ErrorLevel)
+			debug = true
 		}
 	}
 	if !sc.DebugLate {
@@ -123,8 +137,9 @@ func run(t vlib.TB, test string, sc scenario) {
 		is.SetDebugMode(false)
 		debug = false
 	}
+	caseCounter++
 	if is.DebugMode() != debug {
-		t.Fatalf("harness: debug mode is %v, expected %v", is.DebugMode(), debug)
+		t.Fatalf("C01 process-wide debug mode is %v after the history %q (late=%v, off again=%v); the statement's side-effect rule says %v", is.DebugMode(), sc.DebugHow, sc.DebugLate, sc.DebugOffAgain, debug)
 	}
 	if sc.EP.Pkg {
 		slog.SetDefault(lg)
@@ -147,7 +162,16 @@ func run(t vlib.TB, test string, sc scenario) {
 				t.Fatalf("C01 %s: call panicked: %v", where, p)
 			}
 		}()
-		sc.EP.Call(lg, ctx, sc.R, "gate probe", []any{"k", 1})
+		switch {
+		case sc.Bare && sc.EP.Name == "Logger.Println":
+			lg.Println()
+		case sc.Bare && sc.EP.Name == "slog.Println":
+			slog.Println()
+		case sc.Bare && sc.EP.Level == slog.AlwaysLevel && sc.EP.Fixed:
+			sc.EP.Call(lg, ctx, sc.R, "", nil)
+		default:
+			sc.EP.Call(lg, ctx, sc.R, "gate probe", []any{"k", 1})
+		}
 	}()
 	got := len(log.Writes()) > 0
 	if got != want {
@@ -216,7 +240,7 @@ func TestAdmissionGenerated(t *testing.T) {
 	rapid.Check(t, func(t *rapid.T) {
 		var sc scenario
 		sc.Regs = genRegs().Draw(t, "regs")
-		sc.DebugHow = rapid.SampledFrom([]string{"off", "off", "explicit", "side-effect"}).Draw(t, "debug")
+		sc.DebugHow = rapid.SampledFrom([]string{"off", "off", "explicit", "side-effect", "side-effect-child"}).Draw(t, "debug")
 		sc.LoggerKind = rapid.SampledFrom([]string{"root-iface", "root-entry", "child", "grandchild"}).Draw(t, "logger")
 		sc.L = genLevel(sc.Regs, "L").Draw(t, "L")
 		sc.R = genLevel(sc.Regs, "r").Draw(t, "r")
@@ -226,6 +250,7 @@ func TestAdmissionGenerated(t *testing.T) {
 		sc.NilCtx = rapid.Bool().Draw(t, "todoCtx")
 		sc.DebugLate = rapid.Bool().Draw(t, "debugModeChangedAfterSetLevel")
 		sc.DebugOffAgain = rapid.IntRange(0, 3).Draw(t, "debugOffAgain") == 0
+		sc.Bare = rapid.IntRange(0, 3).Draw(t, "bareCall") == 0
 		run(t, "TestAdmissionGenerated", sc)
 	})
 }
@@ -238,10 +263,15 @@ func TestAdmissionMatrix(t *testing.T) {
 	for _, L := range vlib.Builtins {
 		for _, R := range vlib.Builtins {
 			for _, ep := range vlib.EntryPointsFor(R) {
-				for _, dbg := range []string{"off", "explicit", "side-effect"} {
+				for _, dbg := range []string{"off", "explicit", "side-effect", "side-effect-child"} {
 					for _, lk := range []string{"root-iface", "child"} {
 						run(t, "TestAdmissionMatrix", scenario{DebugHow: dbg, LoggerKind: lk, L: L, R: R, EP: ep})
 						n++
+						if R == slog.AlwaysLevel && ep.Fixed {
+							// the Print/Println family also without a message / without any argument
+							run(t, "TestAdmissionMatrix", scenario{DebugHow: dbg, LoggerKind: lk, L: L, R: R, EP: ep, Bare: true})
+							n++
+						}
 						if R == slog.DebugLevel {
 							// the same cell with the mode switched after the level was set / switched off again
 							run(t, "TestAdmissionMatrix", scenario{DebugHow: dbg, LoggerKind: lk, L: L, R: R, EP: ep, DebugLate: true})
